@@ -97,6 +97,10 @@ EXPLANATION += (
     ' Round 14: the reference file list and the cell tables are handed on as received by the front ends (R-FWD/handed-on-unchanged).'
 )
 
+EXPLANATION += (
+    " Round 15: the truncation finds the rows of its input through the file's cluster_to_row (R-PROV/rows-through-file-table)."
+)
+
 RULE_TEXT = (
     "one obligation per key of each producer, per required read, per "
     "merge loop, per statistic, per use of the row index")
@@ -161,6 +165,7 @@ def check(ctx):
                     'files and the taxonomy name')
     ctx.floor('R-FWD/handed-on-unchanged', 2)
     check_truncation_rows_through_file_table(ctx)
+    check_rows_addressed_through_tables(ctx)
     from .C05 import sweep_generic_rules
     sweep_generic_rules(ctx, ('diff_exp.precompute',))
     # settings this property depends on are handed down every call
@@ -1403,4 +1408,72 @@ def check_truncation_rows_through_file_table(
                        'whose clusters are not stored in that order are '
                        'added to the wrong node')
     ctx.floor(rule, 1)
+    return n
+
+
+def check_rows_addressed_through_tables(
+        ctx, rule='R-PROV/rows-through-row-tables'):
+    """in the code that re-arranges the rows of a statistics file, a
+    function that is handed leaf -> row tables (`*_to_row` parameters)
+    addresses rows only through them: the row index of every subscript of
+    the array it reads and of the array it builds is looked up in one of
+    the tables.  The position of a leaf in some loop is not its row --
+    the caller writes `new_leaf_to_row` out as the file's cluster_to_row,
+    so the sums have to sit where that table says."""
+    from ..rules.roles import _selection_atoms
+    db = ctx.db
+    n = 0
+    for fi in db.iter_functions():
+        if fi.module.short != 'diff_exp.truncate_precompute':
+            continue
+        tables = {p for p in fi.params if p.endswith('_to_row')}
+        if not tables:
+            continue
+        cfg = cfg_of(fi)
+        rd = rd_of(fi)
+        ex = Expander(fi)
+        arrays = {p for p in fi.params if 'array' in p or p == 'data'}
+        for st in ast.walk(fi.node):
+            if isinstance(st, ast.Assign) and isinstance(
+                    st.targets[0], ast.Name) and isinstance(
+                        st.value, ast.Call) and getattr(
+                            st.value.func, 'attr', None) in (
+                                'zeros', 'empty', 'ones', 'zeros_like',
+                                'empty_like', 'full'):
+                arrays.add(st.targets[0].id)
+        for node in cfg.nodes:
+            if node.id not in rd.live or node.ast is None:
+                continue
+            roots = list(node.exprs)
+            if node.kind == 'stmt' and isinstance(
+                    node.ast, (ast.Assign, ast.AugAssign)):
+                roots += (node.ast.targets if isinstance(
+                    node.ast, ast.Assign) else [node.ast.target])
+            for root in roots:
+                if root is None:
+                    continue
+                for s_ in ast.walk(root):
+                    if not (isinstance(s_, ast.Subscript) and isinstance(
+                            s_.value, ast.Name)
+                            and s_.value.id in arrays):
+                        continue
+                    idx = s_.slice
+                    if isinstance(idx, ast.Tuple) and idx.elts:
+                        idx = idx.elts[0]
+                    if isinstance(idx, (ast.Slice, ast.Constant)):
+                        continue
+                    n += 1
+                    _r, params = _selection_atoms(
+                        ex.expand(idx, node.id))
+                    ok = bool(params & tables)
+                    ctx.touch(fi)
+                    ctx.ob(rule, f'{fi.qual}:{unparse(s_)[:40]}',
+                           fi.loc(s_), ok,
+                           'the row is looked up in a row table' if ok else
+                           f'`{unparse(s_)[:50]}` addresses a row by '
+                           f'`{unparse(idx)[:30]}`, which is not looked up '
+                           f'in {sorted(tables)}: the statistics of a node '
+                           'end up in a row the file\'s cluster_to_row '
+                           'assigns to another node')
+    ctx.floor(rule, 4)
     return n
